@@ -250,6 +250,8 @@ namespace sqf::parser::preprocessor
             std::vector<file_scope> m_file_scopes;
             std::unordered_set<std::string> m_visited;
             bool m_errflag = false;
+            size_t m_macro_depth = 0;
+            static constexpr size_t max_macro_depth = 256;
             impl_default* m_owner;
             std::unordered_map<std::string, ::sqf::runtime::parser::macro> m_macros;
 
